@@ -35,6 +35,7 @@ STUBS = ["RNG: SimRng behind os.urandom shims", "key generation observer (regist
 PROBES = ["keystore-decoys", "default-recipient", "selector-nonzero-default", "edge-recipient-scalar", "edge-ephemeral-scalar",
           "randrange-retry", "session-key-trailing-zero", "point-off-curve-rejected", "point-coordinate-ge-p",
           "point-zero", "point-negated-still-on-curve", "openssl-agrees"]
+THOROUGH_ONLY_PROBES = ["openssl-agrees"]
 ASSUMPTIONS = ["published recipient keys transcribed into sim/prov.py from the appnote/property text"]
 
 N = refp256.N
